@@ -544,7 +544,7 @@ func runC33(e *vlib.Env, w *world) {
 	for _, m := range mutators {
 		for i := 0; i < per; i++ {
 			p := w.validAny()
-			m.f(w, &p.T)
+			apply(e, m.name, func() { m.f(w, &p.T) })
 			p.Notes = []string{m.name}
 			w.checkPayload(e, p)
 			w.checkDecode(e, p)
@@ -555,7 +555,7 @@ func runC33(e *vlib.Env, w *world) {
 		p := w.validAny()
 		for k := w.r.Range(2, 3); k > 0; k-- {
 			m := mutators[w.r.Intn(len(mutators))]
-			m.f(w, &p.T)
+			apply(e, m.name, func() { m.f(w, &p.T) })
 			p.Notes = append(p.Notes, m.name)
 		}
 		w.checkPayload(e, p)
